@@ -73,7 +73,7 @@ var DefaultGen = GenOpts{MaxBlobs: 8, MaxTrees: 10, MaxCommits: 10, MaxTags: 5, 
 	NameStyle: 1, Octopus: true, ExtraHeaders: true, NonCommitRefs: true, Gitlinks: true, Symrefs: true}
 
 var plainNames = []string{"a", "b", "c", "d", "e", "f", "dir", "src", "lib", "x.txt", "README", "main.go", "z", "ab", "abc", "a.b", "a-b", "a_b", "0", "longer-file-name.ext"}
-var hostileNames = []string{"a b", " lead", "trail ", "q\"uote", "it's", "back\\slash", "co:lon", "[1]", "[2] x", "tab\there", "new\nline", "cr\rx", "\x01ctl", "\x7f", "\xff\xfe", "caf\xc3\xa9", "*", "?", "|pipe", "$(x)", "`x`", "~", "^", "@{", "-dash", "--include", "..x", "x..", "a\\", "{}", "<>", "&", ";", "#", "%s", "%d", "\xe2\x88\x9e", ".gitmodules", "x]", "(p)", "^{tree}", "~1"}
+var hostileNames = []string{"a b", " lead", "trail ", "q\"uote", "it's", "back\\slash", "co:lon", "[1]", "[2] x", "tab\there", "new\nline", "cr\rx", "\x01ctl", "\x7f", "\xff\xfe", "caf\xc3\xa9", "*", "?", "|pipe", "$(x)", "`x`", "~", "^", "@{", "-dash", "--include", "..x", "x..", "a\\", "{}", "<>", "&", ";", "#", "%s", "%d", "\xe2\x88\x9e", ".gitmodules", "x]", "(p)", "^{tree}", "~1", "R\\u0026D", "\\u003cb\\u003e", "\\\"", "\\\\", "\\n", "&amp;", "</script>", "\\x41", "%5C", "\\"}
 
 func (g G) entryName(style int, long bool) string {
 	if long && g.Rare(1, 50, "giantname") {
